@@ -25,8 +25,16 @@ TRUSTED = ["Coq 8.16.1 kernel, vm_compute for the correspondence evaluation",
            "receiver bytes before/after), validated not proved",
            "NumPy (np.insert / np.roll / np.argsort semantics are pinned by the correspondence), vg"]
 CASE_IMPORTS = [("PW.model", "M_polyline_base"), ("PW.model", "M_polyline_spec")]
-ASSUMPTIONS = ["models and theorems are about the value (vertex list, closedness); memory aliasing and write flags are "
-               "checked dynamically on the sampled histories only",
+# model = model / true of any implementation record: they pin the model's shape, they are not evidence for a clause
+DEFINITIONAL = ["C09_constructor_refines_spec", "C09_flipped_refines_spec", "C09_join_refines_spec",
+                "C09_errors_leave_unchanged", "C09_pool_only_grows"]
+ASSUMPTIONS = ["models and theorems are about the value (vertex list, closedness); the clauses 'arrays are read-only', "
+               "'independent of the source array', 'no method changes the polyline it is called on' and 'errors leave "
+               "everything unchanged' are validated by the harness on the sampled histories only (write flags, attempted "
+               "assignment, np.shares_memory, byte snapshots of every existing polyline before/after every call)",
+               "with_insertions index vectors of two or more entries containing an index below -num_v are outside the "
+               "property's domain and not modelled (NumPy wraps such an index twice or raises ValueError); they are "
+               "generated and recorded but not judged",
                "with_insertions is modelled WITH fixes/C09-insertion-index-maps.diff applied"]
 
 
@@ -240,6 +248,10 @@ def ref_step(pool, op):
         ps = [(v[s:e], False) for s, e in zip(starts, ends)]
         return {"polys": ps}, ps
     if k == "insert":
+        if len(op["idx"]) >= 2 and any(i < -n for i in op["idx"]):
+            # NumPy's multi-index path wraps such an index twice (silently) or fails with ValueError: outside the
+            # property's domain and not modelled (M_polyline_spec.wrap_indices); nothing is judged
+            raise RefError(("unmodelled",))
         idx = [_wrap_ins(n, i) for i in op["idx"]]
         if any(i is None for i in idx):
             raise RefError(("IndexError",))
@@ -384,8 +396,12 @@ def _gen_op(rng, pool, scale, malformed):
             idx = [r if rng.random() < 0.7 else rng.randint(0, n) for _ in range(kk)]   # repeats
         else:
             idx = [rng.randint(0, n) for _ in range(kk)]
-        if malformed and kk >= 1 and rng.random() < 0.5:
-            idx[rng.randrange(kk)] = n + rng.randint(1, 3)
+        if malformed and kk >= 1 and rng.random() < 0.6:
+            # out of range: above num_v (IndexError), below -num_v (IndexError for one index; for two or more NumPy wraps
+            # twice or raises ValueError: recorded, not modelled, not judged)
+            idx[rng.randrange(kk)] = n + rng.randint(1, 3) if rng.random() < 0.5 else -n - rng.randint(1, 4)
+        elif rng.random() < 0.08 and kk >= 1:
+            idx[rng.randrange(kk)] = -n                                                # the lowest valid position
         elif rng.random() < 0.1:
             idx = [i - n if (i > 0 and rng.random() < 0.5) else i for i in idx]    # Python's negative positions
         return {"op": k, "a": a, "pts": [_pt(rng, scale) for _ in range(kk)], "idx": idx}
@@ -478,6 +494,13 @@ def gen_cases(rng, n, tier):
         ops += [{"op": "insert", "a": j, "pts": [[10.0 + t, 0.5, 0.25] for t in range(len(idx))], "idx": idx}
                 for j, (v, idx) in enumerate(chunk)]
         cases.append({"kind": "exhaustive_insert", "ops": ops})
+    # insertion indices at and beyond the edge of the valid range -n..n (beyond: IndexError, or not modelled)
+    v3 = [[1.0, 0.0, 0.0], [2.0, 0.0, -1.0], [3.0, 0.0, -2.0]]
+    ops = [{"op": "new", "v": v3, "closed": False}]
+    for idx in ([-3], [-3, 3], [-1, -3, -2], [-4], [4], [4, 0], [0, 5, 1], [-4, 0], [-7, 0, 0], [0, -5], [-4, -4], [2]):
+        ops.append({"op": "insert", "a": 0, "pts": [[10.0 + t, 0.5, 0.25] for t in range(len(idx))], "idx": idx})
+    ops.append({"op": "len", "a": 0})
+    cases.append({"kind": "insert_index_range_edges", "ops": ops})
     for nn in range(0, 6):
         ops = [{"op": "new", "v": [[float(i), 1.0, 0.0] for i in range(nn)], "closed": True}]
         ops += [{"op": "rolled", "a": 0, "k": kk} for kk in range(-2 * nn - 2, 2 * nn + 3)]
@@ -689,8 +712,11 @@ def run_impl(c):
         try:
             expected_new = len(ref_step(ref_pool, op)[1])
             ref_pool.extend(ref_step(ref_pool, op)[1])
-        except RefError:
+        except RefError as e:
             expected_new = 0
+            if e.names == ("unmodelled",):
+                news = []      # keep pool positions aligned with the models, which append nothing here
+                rec["unmodelled"] = True
         if "raise" in rec["res"] and expected_new:
             news = [None] * expected_new
         pool.extend(news)
@@ -792,6 +818,8 @@ def oracle(c, o):
         try:
             want, news = ref_step(pool, op)
         except RefError as e:
+            if e.names == ("unmodelled",):
+                continue
             if "raise" not in r:
                 return where + "undefined operation returned a value instead of raising %s" % "/".join(e.names)
             if r["raise"] not in e.names:
